@@ -2529,6 +2529,54 @@ v("C20", "send-select-own-done-local", "inprocgrpc/in_process.go",
 v("C20", "finish-reads-state-after-signal", "inprocgrpc/in_process.go",
   "func (s *inProcessServerStream) finish(err error) {\n	s.onDone()\n\n	s.mu.Lock()\n", "func (s *inProcessServerStream) finish(err error) {\n	done := s.onDone\n	done()\n\n	s.mu.Lock()\n", silent=True, why="the completion CancelFunc read into a local, still called before the lock")
 
+# ------------------------------------------------------------------ batch-4 refactorings with one instance broken
+v("C05", "enum-flag-send-unguarded", "inprocgrpc/in_process.go",
+  "	if s.sendState == sendClosed {\n		return fmt.Errorf(\"send closed\")\n	}\n", "", "R3", "send(inProcessClientStream.requests)",
+  "after refactoring A4-r1 (send state as an enum): SendMsg no longer tests the state before sending on a channel CloseSend may have closed", patch="refactors/A4-r1/patch.diff")
+v("C05", "enum-flag-close-unguarded", "inprocgrpc/in_process.go",
+  "	if s.sendState == sendOpen {\n		close(s.requests)\n		s.sendState = sendClosed\n	}", "	close(s.requests)\n	s.sendState = sendClosed", "R2", "close(.requests)",
+  "after refactoring A4-r1: the close is no longer confined to the open state (a second CloseSend panics)", patch="refactors/A4-r1/patch.diff")
+v("C03", "two-bool-state-headers-not-marked", "inprocgrpc/in_process.go",
+  "	s.headers = nil\n	s.headersSent = true\n", "	s.headers = nil\n", "R1", "marks-sent",
+  "after refactoring B4-r4 (state enum as two bools): flushing the headers no longer marks them as sent", patch="refactors/B4-r4/patch.diff")
+v("C08", "split-loop-nil-without-response", "inprocgrpc/in_process.go",
+  "	if !gotResponse {\n		return status.Error(codes.Internal, \"server sent neither response message nor error\")\n	}\n	return nil\n}", "	if !gotResponse && ctx == nil {\n		return status.Error(codes.Internal, \"server sent neither response message nor error\")\n	}\n	return nil\n}", "R2", "closed-without-response",
+  "after refactoring B4-r1 (receive loop and completion decision as step functions): the completion helper reports success without a response", patch="refactors/B4-r1/patch.diff")
+v("C07", "shared-struct-error-not-checked", "httpgrpc/client.go",
+  "	if err := body.err; err != nil {", "	if err := body.err; err != nil && len(body.data) == 0 {", "R3", "",
+  "after refactoring C4-r1 (reply read in a step function filling a result struct): a partial body with a read error is decoded", patch="refactors/C4-r1/patch.diff")
+v("C11", "result-struct-nil-cancel", "httpgrpc/server.go",
+  "	return requestContext{ctx: ctx, cancel: cancel}, nil", "	return requestContext{ctx: ctx}, nil", "R7", "call-of-result",
+  "after refactoring D4-r2 (decoder results packed into a struct): the success return leaves the cancel func nil and the handler defers it", patch="refactors/D4-r2/patch.diff")
+v("C01", "kind-param-data-frame-as-trailer", "httpgrpc/server.go",
+  "	err := writeProtoMessage(s.w, s.codec, m, dataMessage)", "	err := writeProtoMessage(s.w, s.codec, m, trailerMessage)", "R2", "success-needs-handover",
+  "after refactoring E4-r1 (end flag as a message kind): the server's SendMsg writes every message as the final frame", patch="refactors/E4-r1/patch.diff")
+v("C03", "reserved-predicate-extra-key", "httpgrpc/io.go",
+  "		\"upgrade\":\n		return true", "		\"upgrade\", \"authorization\":\n		return true", "R5", "authorization",
+  "after refactoring E4-r2 (reserved-header table as a switch): an application header is withheld", patch="refactors/E4-r2/patch.diff")
+v("C03", "reserved-predicate-prefix-test", "httpgrpc/io.go",
+  "	}\n	return false\n}\n", "	}\n	return strings.HasPrefix(lowerKey, \"x-\")\n}\n", "R5", "enumerable",
+  "after refactoring E4-r2: the predicate also withholds every key with a prefix", patch="refactors/E4-r2/patch.diff")
+v("C16", "factory-skips-combined", "intercept.go",
+  "		return origHandler(srv, ctx, dec, combinedInterceptor)", "		_ = combinedInterceptor\n		return origHandler(srv, ctx, dec, unaryInt)", "R2", "",
+  "after refactoring F4-r3 (handler literals built by factories): the transport's interceptor is dropped", patch="refactors/F4-r3/patch.diff")
+v("C16", "method-value-skips-combined", "intercept.go",
+  "	return h.origHandler(srv, ctx, dec, combinedInterceptor)", "	_ = combinedInterceptor\n	return h.origHandler(srv, ctx, dec, h.unaryInt)", "R2", "",
+  "after refactoring F-r4 (handler literals as methods of small structs): the transport's interceptor is dropped", patch="refactors/F-r4/patch.diff")
+v("C11", "method-value-handler-accepts-get", "httpgrpc/server.go",
+  "func (h *unaryHandler) serveHTTP(w http.ResponseWriter, r *http.Request) {\n	ctx := r.Context()\n	if p := peerFromRequest(r); p != nil {\n		ctx = peer.NewContext(ctx, p)\n	}\n	defer drainAndClose(r.Body)\n	if r.Method != \"POST\" {",
+  "func (h *unaryHandler) serveHTTP(w http.ResponseWriter, r *http.Request) {\n	ctx := r.Context()\n	if p := peerFromRequest(r); p != nil {\n		ctx = peer.NewContext(ctx, p)\n	}\n	defer drainAndClose(r.Body)\n	if r.Method != \"POST\" && r.Method != \"GET\" {", "R1", "post",
+  "after refactoring D3-r1 (HTTP handler literals as methods of small structs): the unary handler also serves GET", patch="refactors/D3-r1/patch.diff")
+v("C19", "lookup-helper-wrong-field", "cmd/protoc-gen-grpchan/protoc-gen-grpchan.go",
+  "	case \"legacy_stubs\":\n		return &a.legacyStubs", "	case \"legacy_stubs\":\n		return &a.legacyDescNames", "R4", "bool-options",
+  "after refactoring H4-r4 (boolean options through a lookup helper): legacy_stubs sets the other flag", patch="refactors/H4-r4/patch.diff")
+v("C13", "reply-peer-authinfo-conditional", "httpgrpc/client.go",
+  "	if connState := reply.TLS; connState != nil {", "	if connState := reply.TLS; connState != nil && baseUrl.Scheme == \"https\" {", "R3", "authinfo",
+  "after refactoring C4-r4 (peer constructor handed the reply): the TLS info is subject to a further condition", patch="refactors/C4-r4/patch.diff")
+v("C11", "decoder-factory-wrong-code", "httpgrpc/server.go",
+  "			return status.Error(codes.InvalidArgument, err.Error())", "			return status.Error(codes.Internal, err.Error())", "R5", "decode-error-code",
+  "after refactoring D4-r3 (decode callback built by a factory): an undecodable request is reported as Internal", patch="refactors/D4-r3/patch.diff")
+
 
 def main():
     if os.path.isdir(OUT):
